@@ -38,8 +38,13 @@ ASSUMPTIONS = [
     "optimality tolerance: ||x - x*||_inf <= 1e-4*max(1,||x*||_inf); tol <= 1e-8 is passed to the driver so that the "
     "optimizers' own termination rules are at least two orders tighter",
     "a success reported by scipy for a run whose own reported constraint violation (result.maxcv / constr_violation, in "
-    "driver units) exceeds the tolerance, or a trust-constr termination on xtol (status 2: trust region collapsed, no "
-    "optimality claim), is third-party looseness: counted as discard, not judged for (b)/(c)",
+    "driver units) exceeds the tolerance is third-party looseness: not judged for (b)/(c) (class optimizer_own_violation_above_tol)",
+    "when a design misses the optimum, the same scipy method is run by the harness directly on the reference problem in the "
+    "driver units of that run (same tol, options, start, one constraint per element and side); if that control misses the "
+    "optimum too, 'success' carries no optimality claim for this problem (COBYLA/COBYQA stop on trust-region size) and the "
+    "run is not judged for (c) (class optimizer_inaccurate_in_control_too)",
+    "trust-constr: optimality tolerance 5e-3 relative: scipy's interior-point gtol test is met on the central path (direct "
+    "scipy calls and the repaired driver miss the optimum by up to 8e-4 on 210 generated problems at tol <= 1e-8)",
     "scalers are positive (ref > ref0) on design variables and constraints: OpenMDAO states no bound re-ordering rule for "
     "negative scalers (DESIGN section 8 item 4); a negative objective scaler is used with a negated objective (maximisation)",
     "equality constraints only with SLSQP / trust-constr (OpenMDAO documents that the others reject them)",
@@ -736,6 +741,9 @@ def judge_run(case, P, run, xstar, res, label):
     # 1e-4 relative, plus what an objective decrease of `tol` (driver units) can hide: s_f*lambda_min(Q)/2*|dx|^2 <= tol
     tc = 1e-4 * max(1.0, float(np.max(np.abs(xstar)))) + \
         2.0 * math.sqrt(2.0 * case['tol'] / (abs(run['f_s']) * float(np.linalg.eigvalsh(P.Q)[0])))
+    if opt == 'trust-constr':
+        # scipy's interior-point method meets its gtol test on the central path, before the barrier parameter is small
+        tc = max(tc, 5e-3 * max(1.0, float(np.max(np.abs(xstar)))))
     err = float(np.max(np.abs(xj - xstar)))
     if err > tc:
         ximpl = None
@@ -757,6 +765,7 @@ def judge_run(case, P, run, xstar, res, label):
             res.fail('optimum:design-differs-from-qp-optimum',
                      f"[{label}] {opt}: design {xj.tolist()} optimum {xstar.tolist()} err {err:.3e} tol {tc:.1e} "
                      f"status {getattr(sres, 'status', None)} msg {str(getattr(sres, 'message', ''))[:80]} tags {run['tags']}")
+    run['tc'] = tc
     return xj
 
 
@@ -797,6 +806,7 @@ def check(case):
         cls.append('two_desvars')
     res.classes = cls
     designs = []
+    tcs = []
     nsucc = 0
     nclean = 0
     tags = set()
@@ -810,6 +820,7 @@ def check(case):
             nclean += 1
         if xj is not None:
             designs.append(xj)
+            tcs.append(run['tc'])
         if scal and (any(scal.get(k) for k in ('x', 'z', 'f')) or any(scal.get('g') or [])):
             if 'scaled' not in res.classes:
                 res.classes.append('scaled')
@@ -825,7 +836,7 @@ def check(case):
         res.discard = res.discard or f"optimizer-reported-failure:{opt}"
     if len(designs) == 2 and not any('optimum' in s for s, _ in res.violations):
         d = float(np.max(np.abs(designs[0] - designs[1])))
-        if d > 2e-4 * max(1.0, float(np.max(np.abs(xstar)))):
+        if d > sum(tcs):
             res.fail('scaling:designs-differ-between-scalings', f"{opt}: A {designs[0].tolist()} B {designs[1].tolist()}")
     res.nontrivial = bool(nsucc and mixed and con_active)
     return res
